@@ -130,6 +130,8 @@ func runPath(i *interpreter, ex *explorer, sh *Shared, entry *ssa.Function, it *
 	i.strCellOf = map[*value]string{}
 	i.noSummary = map[*ssa.Function]bool{}
 	i.lockDepth = 0
+	i.shared = nil
+	i.inSync = 0
 	i.clock = 0
 	i.fs = newMemFS()
 	i.steps = 0
